@@ -347,8 +347,10 @@ func judge(res *caseResult) (known map[string]bool, fails []string) {
 	if (o.exit != 0) != (len(o.diags) > 0) {
 		fails = append(fails, fmt.Sprintf("exit status %d with %d diagnostics", o.exit, len(o.diags)))
 	}
-	if o.exit != 0 && o.exit != 1 {
-		fails = append(fails, fmt.Sprintf("exit status %d", o.exit))
+	// the property fixes only zero / non-zero; an exit status that belongs to a crash of the Go
+	// runtime is told from its stderr
+	if strings.Contains(o.stderr, "panic:") || strings.Contains(o.stderr, "fatal error:") || strings.Contains(o.stderr, "goroutine ") {
+		fails = append(fails, fmt.Sprintf("the linter crashed (exit status %d)", o.exit))
 	}
 	if len(res.in.Kinds) == 0 && len(res.expected) > 0 {
 		fails = append(fails, "ORACLE-INCONSISTENT: an empty edit script with expected diagnostics")
